@@ -1504,7 +1504,7 @@ fn read_def_rhythm_macro(cur: &mut SourceCursor, song: &mut Song) {
     }
     cur.skip_space();
     let s = cur.get_token_nest('{', '}');
-    if 0x40 <= ch as u8 && ch as u8 <= 0x7F {
+    if 0x40 <= ch as u32 && ch as u32 <= 0x7F {
         song.rhthm_macro[ch as usize - 0x40] = s;
     } else {
         song.add_log(format!(
